@@ -2,6 +2,6 @@
 # tools/run_thorough.sh C11 C12 ...   runs the thorough tier of the given checks one after another and prints a summary line each
 for p in "$@"; do
   s=$(date +%s)
-  out=$(VERIF_OUT=${VERIF_OUT:-/var/tmp/thorough-out} ./check $p thorough 2>&1 | grep "^HELD\|^INCONCLUSIVE\|^VIOLATION\|^KNOWN" | cut -c1-240 | head -8)
+  out=$(VERIF_OUT=${VERIF_OUT:-/var/tmp/thorough-out} ./check $p thorough 2>&1 | grep "^HELD\|^INCONCLUSIVE\|^VIOLATION\|^KNOWN" | cut -c1-240 | head -14)
   echo "== $p rc-lines after $(( $(date +%s) - s )) s"; echo "$out"
 done
